@@ -51,9 +51,12 @@ class Frame:
 
 
 class LoopSpec:
-    def __init__(self, index="i", invariants=(), modifies=(), entry_ghosts=None):
+    def __init__(self, index="i", invariants=(), modifies=(), entry_ghosts=None, assumed=()):
         self.index, self.invariants, self.modifies = index, list(invariants), list(modifies)
         self.entry_ghosts = entry_ghosts or {}     # ghost name -> spec expr, evaluated once when the loop is reached
+        # invariants established by ANOTHER task on the same loop (staged invariant proof: that task proves them without using this task's invariants);
+        # assumed at the loop head here, never checked here
+        self.assumed = list(assumed)
 
 
 class Contract:
@@ -1363,7 +1366,7 @@ class Interp(Ops, Builtins, DynOps):
         def assume_inv(idx):
             inv_fr = Frame(fr.module, fi, parent=fr)
             inv_fr.vars[ivar] = VInt(idx)
-            for nm, tx in spec.invariants:
+            for nm, tx in list(spec.invariants) + list(spec.assumed):
                 self.ctx.assume(self.truth(self.eval_spec(tx, inv_fr)))
         for gname, gtx in spec.entry_ghosts.items():
             fr.vars[gname] = self.eval_spec(gtx, fr)
@@ -1564,7 +1567,8 @@ class Interp(Ops, Builtins, DynOps):
             return self.merge(c, self.guarded(c, lambda: self.ev(e.args[1], fr)), self.guarded(z3.Not(c), lambda: self.ev(e.args[2], fr)))
         if name in ("forall", "exists"):
             # forall(k, lo, hi, body) | forall((k, T), body)
-            if len(e.args) == 4:
+            if len(e.args) in (4, 5):
+                # forall(k, lo, hi, body[, trigger]): the optional 5th argument is the instantiation pattern (a term over k)
                 var = e.args[0].id
                 lo = to_int_z(self.ev(e.args[1], fr))
                 hi = to_int_z(self.ev(e.args[2], fr))
@@ -1573,6 +1577,11 @@ class Interp(Ops, Builtins, DynOps):
                 qf.vars[var] = VInt(kz)
                 rng = z3.And(lo <= kz, kz < hi)
                 body = self.guarded(rng, lambda: self.truth(self.ev(e.args[3], qf)))
+                if len(e.args) == 5 and name == "forall":
+                    pv = self.ev(e.args[4], qf)
+                    pat = pv.z if getattr(pv, "z", None) is not None else None
+                    if pat is not None and not z3.is_const(pat):
+                        return VBool(z3.ForAll([kz], z3.Implies(rng, body), patterns=[pat]))
                 return VBool(z3.ForAll([kz], z3.Implies(rng, body)) if name == "forall" else z3.Exists([kz], z3.And(rng, body)))
             if len(e.args) == 2:
                 # forall(p, body): p ranges over all integers (ids of an abstract universe, e.g. points)
